@@ -634,7 +634,12 @@ func runHarness(ld *Loaded, hs *HarnessSpec, tier string, known map[string]bool,
 				seenOb[ob.Key] = ob
 				ob.timeoutMs = hs.Cfg.ObligMs
 				if ob.Kind == "reach" {
+					// vacuity witnesses are satisfiability queries: usually instant, but allow them the
+					// harness's own budget on non-linear path conditions under load
 					ob.timeoutMs = 10000
+					if hs.Cfg.ObligMs > ob.timeoutMs {
+						ob.timeoutMs = hs.Cfg.ObligMs
+					}
 				}
 				if ob.Hunt && ob.timeoutMs > 30000 {
 					ob.timeoutMs = 30000
